@@ -176,11 +176,13 @@ func c02Run(t rt.TB, c c02Case, quiet bool) {
 		}
 		var wg sync.WaitGroup
 		start := make(chan struct{})
+		bar := rt.NewBarrier(len(srcs))
 		for i, s := range srcs {
 			wg.Add(1)
 			go func(i int, s *rt.ManualSrc) {
 				defer wg.Done()
 				<-start
+				bar.Wait()
 				if i > 0 && !quiet && rep%2 == 1 {
 					// every other repetition: the other producers wait until the observer is
 					// inside its first callback, so that their notifications arrive while a
